@@ -58,6 +58,8 @@ func (cr *crun) newInst(name string, cfg *Cfg) {
 	ci := &cinst{}
 	if strings.HasPrefix(name, "h") {
 		ci.hs = mux.NewHosts(cfg.Lock)
+		// every Hosts instance registers an interceptor of its own under the same rule name
+		ci.hs.RegisterInterceptor(func(s string) bool { return matchLower(s) }, "hlower")
 	} else if strings.HasPrefix(name, "g") {
 		// a quiescent group: router ga for host a.com, router gb for /v1/..., everything else is the group's own not-found
 		ci.g = mux.NewGroup[*H](cr.e.call, &H{kind: "gnf"}, b405, bopt)
@@ -134,7 +136,7 @@ func (cr *crun) exec1(g string, op *Op, evs *[]cev) string {
 				*evs = append(*evs, cev{s, obj("ev", js(ev), "g", js(g), "seq", jint(int(s)), "ctx", js(ctx))})
 			}
 		}
-		req := mkRequest(op.Method, op.Path, "", nil)
+		req := mkRequest(op.Method, op.Path, "", map[string]string(op.Params)) // request headers of a serve op travel in params
 		req = req.WithContext(context.WithValue(context.Background(), obsKey{}, o))
 		func() {
 			defer func() {
